@@ -328,6 +328,11 @@ type PlatCase struct {
 	Follow     bool       `json:"follow"`      // network: on-open continues with acquire-priv and a command
 	Accept     bool       `json:"accept"`      // the device accepts the secret
 	Seg        devsim.Seg `json:"seg"`
+	// Quiet: the definition is loaded as the variant "quiet", whose empty on-open lists switch the
+	// default's on-open sequence off (a device of that variant does not ask for the secret).
+	Quiet bool `json:"quiet_variant,omitempty"`
+	// Grants: the device answers "enable" by granting without asking.
+	Grants bool `json:"grants,omitempty"`
 }
 
 // SysCase is a session over the real system transport with the stand-in binary.
@@ -405,7 +410,7 @@ func genCase(r *rand.Rand, i int) Case {
 		c.Kind = "escalate"
 		c.Password, c.Passphrase = "", ""
 		e := &EscCase{Host: hosts[r.Intn(len(hosts))], NL: []string{"\r\n", "\n"}[r.Intn(2)], Seg: genSeg(r)}
-		e.Variant = []string{"asks", "asks", "rejects", "rejects", "reasks", "grants", "refuses", "no-secondary", "interactive"}[r.Intn(9)]
+		e.Variant = []string{"asks", "asks", "rejects", "rejects", "reasks", "grants", "refuses", "no-secondary", "interactive", "interactive-skip"}[r.Intn(10)]
 		e.Op = []string{"acquire", "acquire-config", "sendcommand", "sendconfig"}[r.Intn(4)]
 		e.Cmd = "show " + rs(r, "abcdefghijklmnopqrstuvwxyz", 3+r.Intn(8)) + "!"
 		e.RC = []string{"\n", "\n", "\r", "\r\n"}[r.Intn(4)]
@@ -417,6 +422,9 @@ func genCase(r *rand.Rand, i int) Case {
 		c.Password, c.Passphrase = "", ""
 		c.Plat = &PlatCase{Host: hosts[r.Intn(len(hosts))], DriverType: []string{"generic", "network"}[r.Intn(2)], Follow: r.Intn(2) == 0,
 			Accept: r.Intn(4) != 0, Seg: genSeg(r)}
+		if r.Intn(3) == 0 {
+			c.Plat.Quiet, c.Plat.Grants = true, r.Intn(3) != 0
+		}
 		c.Secondary = decorate(r, c.Secondary, "\n")
 	default:
 		c.Kind = "system"
@@ -564,6 +572,9 @@ func escDevice(host, nl, variant, deviceSecret, cmd string) *devsim.CLI {
 			return devsim.Reply{NewMode: "config"}
 		case mode == "config" && line == "end":
 			return devsim.Reply{NewMode: "priv"}
+		case line == "copy running-config scp:" && variant == "interactive-skip":
+			// the device does not ask the question this time (key based copy)
+			return devsim.Reply{Out: []devsim.Token{devsim.T("1234 bytes copied" + nl)}}
 		case line == "copy running-config scp:":
 			return devsim.Reply{Ask: &devsim.Ask{Prompt: "Password: ", Then: func(ans string) devsim.Reply {
 				return devsim.Reply{Out: []devsim.Token{devsim.T("1234 bytes copied" + nl)}}
@@ -605,7 +616,7 @@ func runEscalate(c *Case, m *Monitor) session {
 	conn := devsim.NewConn(dev, devsim.Config{Seg: e.Seg, KeepData: true})
 	defer conn.Abandon()
 	to := 3 * time.Second
-	if e.Variant == "reasks" || e.Variant == "no-secondary" {
+	if e.Variant == "reasks" || e.Variant == "no-secondary" || e.Variant == "interactive-skip" {
 		to = 400 * time.Millisecond
 	}
 	opts := []util.Option{options.WithCustomTransport(conn), options.WithPrivilegeLevels(levels), options.WithDefaultDesiredPriv("privilege-exec"),
@@ -627,7 +638,7 @@ func runEscalate(c *Case, m *Monitor) session {
 		return s
 	}
 	defer closeBounded(func() { nd.Close() })
-	if e.Variant == "interactive" {
+	if e.Variant == "interactive" || e.Variant == "interactive-skip" {
 		s.nonSecret = "copy running-config scp:"
 		_, err = nd.SendInteractive([]*channel.SendInteractiveEvent{
 			{ChannelInput: "copy running-config scp:", ChannelResponse: "Password:", HideInput: false},
@@ -680,7 +691,12 @@ func platformYAML(c *Case) []byte {
 	} else {
 		def["on-open"] = onOpen
 	}
-	b, err := yaml.Marshal(map[string]interface{}{"platform-type": "c11_device", "default": def})
+	doc := map[string]interface{}{"platform-type": "c11_device", "default": def}
+	if p.Quiet {
+		doc["variants"] = map[string]interface{}{"quiet": map[string]interface{}{
+			"on-open": []interface{}{}, "network-on-open": []interface{}{}, "on-close": []interface{}{}, "network-on-close": []interface{}{}}}
+	}
+	b, err := yaml.Marshal(doc)
 	if err != nil {
 		panic(err)
 	}
@@ -694,14 +710,28 @@ func runPlatform(c *Case, m *Monitor) session {
 	if !p.Accept {
 		deviceSecret = "device-side-" + c.Secondary[:4]
 	}
-	dev := escDevice(p.Host, "\r\n", "asks", deviceSecret, "show clock!")
+	devVariant := "asks"
+	if p.Grants {
+		devVariant = "grants"
+	}
+	dev := escDevice(p.Host, "\r\n", devVariant, deviceSecret, "show clock!")
 	conn := devsim.NewConn(dev, devsim.Config{Seg: p.Seg, KeepData: true})
 	defer conn.Abandon()
+	if p.Quiet {
+		s.kind = "platform-quiet-variant-" + p.DriverType
+		s.nonSecret = "host '" + p.Host + "'"
+	}
 	// the secret exists only in the definition's on-open sequence (no WithAuthSecondary): the unpaced
 	// on-open writes leave stale output behind, and a driver that escalates on a stale prompt would type
 	// a configured secondary secret at a command prompt, where any device echoes
 	opts := append([]util.Option{options.WithCustomTransport(conn)}, m.options(c.Level)...)
-	pl, err := platform.NewPlatform(platformYAML(c), p.Host, opts...)
+	var pl *platform.Platform
+	var err error
+	if p.Quiet {
+		pl, err = platform.NewPlatformVariant(platformYAML(c), "quiet", p.Host, opts...)
+	} else {
+		pl, err = platform.NewPlatform(platformYAML(c), p.Host, opts...)
+	}
 	if err != nil {
 		s.outcome = "constructor:platform:" + err.Error()
 		return s
@@ -875,6 +905,12 @@ func Run(mc mon.Case) mon.Result {
 	if len(s.argv) > 0 {
 		obs["child_argv_inspected"] = 1
 	}
+	if c.Plat != nil && c.Plat.Quiet {
+		obs["platform_variants_switching_on_open_off"] = 1
+	}
+	if c.Esc != nil && c.Esc.Variant == "interactive-skip" {
+		obs["hidden_input_after_skipped_question"] = 1
+	}
 	if c.Esc != nil && c.Esc.TwoLine {
 		obs["escalations_with_two_line_prompts"] = 1
 	}
@@ -975,7 +1011,7 @@ func init() {
 			}
 			// escalations with two-line prompts, every device variant
 			k = 0
-			for _, variant := range []string{"grants", "grants", "asks", "rejects", "refuses", "interactive"} {
+			for _, variant := range []string{"grants", "grants", "asks", "rejects", "refuses", "interactive", "interactive-skip"} {
 				for _, op := range []string{"acquire", "acquire-config", "sendcommand", "sendconfig"} {
 					c := Case{Kind: "escalate", Level: []string{"debug", "info", "critical", "debug"}[k%4], Family: secretFamilies[k%len(secretFamilies)]}
 					c.Secondary = decorate(r, genSecret(r, c.Family), "\n")
@@ -996,6 +1032,21 @@ func init() {
 				lo.Password = c.Password
 				c.Lo = &lo
 				cs = append(cs, mon.MkCase(fmt.Sprintf("c11/telnet-transport/%03d", i), c))
+			}
+			// a user dialogue whose hidden answer follows a question the device does not ask (single-line
+			// prompts), and platform variants that switch the inherited on-open off with empty lists
+			for i := 0; i < 6; i++ {
+				c := Case{Kind: "escalate", Level: []string{"debug", "info", "critical"}[i%3], Family: secretFamilies[i%len(secretFamilies)]}
+				c.Secondary = decorate(r, genSecret(r, c.Family), "\n")
+				c.Esc = &EscCase{Host: hosts[i%len(hosts)], Variant: "interactive-skip", Op: "acquire", NL: "\r\n", Cmd: "show skip!", Seg: genSeg(r), RC: "\n"}
+				cs = append(cs, mon.MkCase(fmt.Sprintf("c11/skip/%02d", i), c))
+			}
+			for i := 0; i < 12; i++ {
+				c := Case{Kind: "platform", Level: []string{"debug", "info", "critical"}[i%3], Family: secretFamilies[i%len(secretFamilies)]}
+				c.Secondary = decorate(r, genSecret(r, c.Family), "\n")
+				c.Plat = &PlatCase{Host: hosts[i%len(hosts)], DriverType: []string{"generic", "network"}[i%2], Follow: i%4 >= 2, Accept: true, Seg: genSeg(r),
+					Quiet: true, Grants: i%6 != 5}
+				cs = append(cs, mon.MkCase(fmt.Sprintf("c11/variant/%02d", i), c))
 			}
 			cs = append(cs, genFaultCases(r, tier)...)
 			cs = append(cs, genRefusalCases(r)...)
